@@ -130,6 +130,17 @@ pub fn case(ctx: &mut Ctx, phases: &str) {
     let ph = phases.to_string();
     let obs = guard(move || {
         let mut out = Vec::new();
+        // the first program of every phase runs on one thread that lives for the whole case (a handler thread of a pool outlives
+        // the loggers that come and go); the other programs run on fresh threads
+        let (work_tx, work_rx) = std::sync::mpsc::channel::<String>();
+        let (done_tx, done_rx) = std::sync::mpsc::channel::<Vec<String>>();
+        let _worker = std::thread::spawn(move || {
+            while let Ok(p) = work_rx.recv() {
+                let r = run_program(&p);
+                clear_thread_local_log_tags();
+                if done_tx.send(r).is_err() { break; }
+            }
+        });
         for phase in ph.split('|') {
             let (logger, progs) = phase.split_once('@').unwrap();
             if logger == "R" {
@@ -157,13 +168,15 @@ pub fn case(ctx: &mut Ctx, phases: &str) {
             } else {
                 Some(receiver)
             };
-            let handles: Vec<_> = progs.iter().cloned().map(|p| std::thread::spawn(move || { let r = run_program(&p); clear_thread_local_log_tags(); r })).collect();
+            work_tx.send(progs[0].clone()).unwrap();
+            let handles: Vec<_> = progs.iter().skip(1).cloned().map(|p| std::thread::spawn(move || { let r = run_program(&p); clear_thread_local_log_tags(); r })).collect();
             let mut guard_opt = guard_opt;
             if logger == "X" {
                 std::thread::sleep(std::time::Duration::from_millis(20));
                 drop(guard_opt.take());
             }
-            let results: Vec<String> = handles.into_iter().map(|h| h.join().unwrap().join(",")).collect();
+            let first = done_rx.recv_timeout(std::time::Duration::from_secs(20)).expect("persistent thread").join(",");
+            let results: Vec<String> = std::iter::once(first).chain(handles.into_iter().map(|h| h.join().unwrap().join(","))).collect();
             drop(guard_opt);
             drop(sender);
             let events: Vec<String> = match consumer {
